@@ -3,6 +3,40 @@ from .engine import PathEnd
 from .interp import _Break, _Continue
 
 
+def _assigned_names(nodes):
+    import ast
+    out = set()
+    for n in nodes:
+        for x in ast.walk(n):
+            if isinstance(x, ast.Name) and isinstance(x.ctx, (ast.Store, ast.Del)):
+                out.add(x.id)
+    return out
+
+
+def _fit(label, fn, *a):
+    """Run a contract callback; a contract that refers to names the code no longer has does not fit the code any
+    more - that is 'undecided', never a crash and never a pass."""
+    from .values import Unsupported
+    try:
+        return fn(*a)
+    except (KeyError, AttributeError, IndexError, TypeError) as e:
+        raise Unsupported('loop contract %s does not fit the code any more (%s: %s)' % (label, type(e).__name__, e))
+
+
+def _havoc_checked(label, havoc, I, frame, body, *a):
+    """Frame condition of the contract: every local the loop body assigns and that is live at the loop head must be
+    replaced by the havoc step (otherwise its pre-loop value would be used as if the loop never changed it)."""
+    from .values import Unsupported
+    names = _assigned_names(body)
+    before = {k: frame.locals[k] for k in names if k in frame.locals}
+    _fit(label, havoc, I, frame, *a)
+    kept = getattr(havoc, 'keeps', ())
+    stale = sorted(k for k, v in before.items() if frame.locals.get(k) is v and k not in kept
+                   and not isinstance(v, (type(None), bool)) )
+    if stale:
+        raise Unsupported('loop contract %s: the loop assigns %s but the contract does not havoc it' % (label, ', '.join(stale)))
+
+
 class LoopSpec(object):
     """
     invariant(I, frame) -> bool-ish   : must hold at every loop head
@@ -21,16 +55,16 @@ class LoopSpec(object):
         import ast
         E = I.E
         E.notes.append('loop contract %s (invariant%s)' % (self.label, ' + variant' if self.variant else ''))
-        E.check('%s.inv-entry' % self.label, self.invariant(I, frame), kind='loop')
-        self.havoc(I, frame)
-        E.assume(self.invariant(I, frame))
+        E.check('%s.inv-entry' % self.label, _fit(self.label, self.invariant, I, frame), kind='loop')
+        _havoc_checked(self.label, self.havoc, I, frame, node.body)
+        E.assume(_fit(self.label, self.invariant, I, frame))
         is_while = isinstance(node, ast.While)
         if not is_while:
             raise NotImplementedError('LoopSpec for "for" loops is provided by ForSpec')
         it = E.new_bool('%s.iterate' % self.label)
         if E.decide(it.t):
             # an arbitrary iteration (the variant is sampled at the loop head, before the guard, which may have effects)
-            v0 = self.variant(I, frame) if self.variant else None
+            v0 = _fit(self.label, self.variant, I, frame) if self.variant else None
             if not I.truth(I.eval(node.test, frame)):
                 raise PathEnd('guard false in iteration branch')
             try:
@@ -39,9 +73,9 @@ class LoopSpec(object):
                 return
             except _Continue:
                 pass
-            E.check('%s.inv-preserved' % self.label, self.invariant(I, frame), kind='loop')
+            E.check('%s.inv-preserved' % self.label, _fit(self.label, self.invariant, I, frame), kind='loop')
             if v0 is not None:
-                v1 = self.variant(I, frame)
+                v1 = _fit(self.label, self.variant, I, frame)
                 E.check('%s.variant-bounded' % self.label, v0 >= 0, kind='loop')
                 E.check('%s.variant-decreases' % self.label, v1 < v0, kind='loop')
             raise PathEnd('loop body verified')
@@ -73,13 +107,13 @@ class ForSpec(object):
         it = I.eval(node.iter, frame)
         n = self.length(I, it)
         E.notes.append('loop contract %s (for-loop invariant over the element index)' % self.label)
-        E.check('%s.inv-entry' % self.label, self.invariant(I, frame, 0), kind='loop')
+        E.check('%s.inv-entry' % self.label, _fit(self.label, self.invariant, I, frame, 0), kind='loop')
         b = E.new_bool('%s.iterate' % self.label)
         if E.decide(b.t):
             j = E.new_int('%s.j' % self.label, 0, None)
             E.assume(j < n)
-            self.havoc(I, frame, j)
-            E.assume(self.invariant(I, frame, j))
+            _havoc_checked(self.label, self.havoc, I, frame, node.body, j)
+            E.assume(_fit(self.label, self.invariant, I, frame, j))
             I.assign(node.target, self.element(I, it, j), frame)
             try:
                 I.exec_block(node.body, frame)
@@ -87,10 +121,10 @@ class ForSpec(object):
                 return
             except _Continue:
                 pass
-            E.check('%s.inv-preserved' % self.label, self.invariant(I, frame, j + 1), kind='loop')
+            E.check('%s.inv-preserved' % self.label, _fit(self.label, self.invariant, I, frame, j + 1), kind='loop')
             raise PathEnd('loop body verified')
-        self.havoc(I, frame, n)
-        E.assume(self.invariant(I, frame, n))
+        _havoc_checked(self.label, self.havoc, I, frame, node.body, n)
+        E.assume(_fit(self.label, self.invariant, I, frame, n))
         I.exec_block(node.orelse, frame)
 
 
